@@ -36,13 +36,13 @@ REARR = [None, 'canonical', 'alphanumeric', 'attributes-first,alphanumeric', 'in
 RECONF = [None, 'original', 'canonical', 'random']
 MKVARS = [None, '{prefix}{j}', 'v{i}']
 FORMATS = [[], ['--indent', 'no'], ['--indent', '0'], ['--indent', '3'], ['--compact'], ['--compact', '--indent', '3'], ['--triples'], ['--triples', '--indent', 'no'], ['--indent=-1', '--compact']]
-MODELS = ['none', 'amr', 'noop', 'mini']
+MODELS = ['none', 'amr', 'noop', 'mini', 'minitop']
 
 STREAMS = [
     '# ::id 1 ::snt x y\n(a / alpha :ARG0~e.1 (b / beta) :polarity - :mod (c / gamma~2 :ARG0-of a))\n',
     '(a / A :consist-of-of (b / B))\n\n# ::k\n(x / X :mod-of (y / Y) :op2 2 :op10 10 :op1 1 :quant 7)\n',
     '(s / sell-01 :ARG0 (i / i) :ARG1 (b / book :ARG1-of (r / read :ARG0 i)))\n',
-    '(b / bark-01 :ARG0-of-of-of (d / dog) :domain-of 7)\n(a / x :ARG1-of (_ / have-mod-91 :ARG2 7) :accompanier (_2 / y))',
+    '(b / bark-01 :ARG0-of-of-of (d / dog) :domain-of 7 :mod-of-of-of (e / x))\n(a / x :ARG1-of (_ / have-mod-91 :ARG2 7) :accompanier (_2 / y))',
     '(a)\n\n\n# ::id 3\n(w / want-01 :polarity - :ARG0 (c / child) :ARG1 (g / go :ARG0 c) :time "a (b" )   (z / zed :wiki _)',
     '# ::snt x y\n(c / chapter :domain-of 7 :mod (d / x :poss-of c) :ARG2~e.3 "q"~e.4)',
 ]
@@ -213,7 +213,7 @@ def check(case, ctx):
     import penman
     import penman.model as pmodel
     from pmc.engine import cli
-    name = {'none': 'DEFAULT', 'amr': 'AMR', 'noop': 'NOOP', 'mini': 'MINI'}[case['model']]
+    name = {'none': 'DEFAULT', 'amr': 'AMR', 'noop': 'NOOP', 'mini': 'MINI', 'minitop': 'MINITOP'}[case['model']]
     pm, rm = M.get(name)
     opts = case['opts']
     fmt = FORMATS[case['format']]
@@ -226,10 +226,10 @@ def check(case, ctx):
             argv.append('--amr')
         elif case['model'] == 'noop':
             argv.append('--noop')
-        elif case['model'] == 'mini':
+        elif case['model'] in ('mini', 'minitop'):
             mp = os.path.join(d, 'mini.json')
             with open(mp, 'w') as fh:
-                json.dump(M.MINI, fh)
+                json.dump(M.MINI if case['model'] == 'mini' else M.spec('MINITOP'), fh)
             argv += ['--model', mp]
         argv += opts['flags']
         if opts['rearrange']:
@@ -293,8 +293,10 @@ def check(case, ctx):
             if len(gs) != n_in:
                 ctx.fail('one output graph per input graph', expected=n_in, observed=len(gs))
                 return
-        # idempotence
-        if not uses_random and not opts['reconfigure'] and '--indicate-branches' not in opts['flags'] and '--triples' not in fmt and ch == 'stdin':
+        # idempotence (stated for well-formed input; with --canonicalize-roles the first pass makes it well-formed)
+        from pmc.ref import interp as RI0
+        wf0 = '--canonicalize-roles' in opts['flags'] or all(RI0.well_formed_tree(t.node, rm) for tx in texts for t in penman.iterparse(tx))
+        if wf0 and not uses_random and not opts['reconfigure'] and '--indicate-branches' not in opts['flags'] and '--triples' not in fmt and ch == 'stdin':
             code2, out2, err2 = cli.run_main(argv, out)
             ctx.transitions += 1
             if code2 != 0 or out2 != out:
